@@ -15,6 +15,20 @@ WEIGHTS = {'create': 16, 'iter': 8, 'intoThin': 12, 'conv': 18, 'cb': 20, 'clone
 def run(ctx):
     histcheck.run(ctx, MODULE, WEIGHTS, TAGS, lean_extra=EXTRA,
                   release_quick_filter=lambda h: any(op.split()[0] in ('iter', 'intoThin', 'cb') for op in h))
+    # the same claims over the shape matrix (over-aligned, byte-sized and zero-sized headers / elements), in the dev
+    # profile and with release semantics: stored length = slice length, same header and elements at the same addresses
+    # as the fat Arc, thin->fat->thin, and `into_thin` refusing (and releasing) an Arc with a disagreeing recorded length
+    from vlib import layout_corr
+    ok, stats, failures = layout_corr.thin_pass(ctx)
+    ctx.oblige("corr:thin-over-shape-matrix", ok, "%d failing" % len(failures))
+    ctx.coverage["thin_shape_matrix"] = stats
+    ctx.coverage["evaluations"] = ctx.coverage.get("evaluations", 0) + stats["cases"]
+    if not ok:
+        body = "ThinArc over the shape matrix: implementation vs layout model / property:\n\n" + "\n\n".join(f["text"] for f in failures[:4])
+        if any(f.get("found_input") for f in failures):
+            ctx.violation("shape", body, True)
+        else:
+            ctx.defer_nfi(body)
 
 
 def replay(ctx, path):
